@@ -19,10 +19,10 @@ open Wac Wac.Ast Wac.Lex Wac.Parse Wac.Spec.Grammar
 
 /-! ### types -/
 
-theorem peekTok_of_next_none {st : PState} {x : PState} (h : st.next = (none, x)) : peekTok st = none := by
+theorem nextTok_of_next_none {st : PState} {x : PState} (h : st.next = (none, x)) : nextTok st = none := by
   unfold PState.next at h
   cases hs : st.toks with
-  | nil => exact peekTok_nil hs
+  | nil => exact nextTok_nil hs
   | cons a r => rw [hs] at h; simp at h
 
 /-- the `type | '_'` step of `result<…>` -/
@@ -38,7 +38,7 @@ theorem typeOrHole_sound (pf : Nat)
   · rename_i hu
     rw [peekIs_iff] at hu
     cases h
-    have l1 : st.toks.length = st.next.2.toks.length + 1 := len_of_peekTok hu
+    have l1 : st.toks.length = st.next.2.toks.length + 1 := len_of_nextTok hu
     refine ⟨Suf.adv _, by omega, ?_⟩
     intro gf hgf
     obtain ⟨g, rfl⟩ : ∃ g, gf = g + 1 := ⟨gf - 1, by omega⟩
@@ -72,7 +72,7 @@ theorem parseType_sound_step (pf : Nat)
     iterate 13
       · rename_i hk
         cases h
-        have l1 := len_of_peekTok hk
+        have l1 := len_of_nextTok hk
         refine ⟨Suf.adv _, by omega, ?_⟩
         intro gf hgf
         obtain ⟨g, rfl⟩ : ∃ g, gf = g + 1 := ⟨gf - 1, by omega⟩
@@ -91,9 +91,9 @@ theorem parseType_sound_step (pf : Nat)
           simp only [Except.bind_eq_ok, Prod.exists, parseToken_eq_ok] at h4
           obtain ⟨close, st4, ⟨h5, rfl, rfl⟩, h6⟩ := h4
           cases h6
-          have l1 := len_of_peekTok hk
-          have l2 := len_of_peekTok h2
-          have l5 := len_of_peekTok h5
+          have l1 := len_of_nextTok hk
+          have l2 := len_of_nextTok h2
+          have l5 := len_of_nextTok h5
           obtain ⟨hs3, hp3, hl3⟩ := parseDelimited_struct _ _ _ _
             (fun st x st1 hx => ⟨(ih st x st1 hx).1, (ih st x st1 hx).2.1⟩) _ _ _ _ hd
           have hl3' := hs3.len
@@ -116,9 +116,9 @@ theorem parseType_sound_step (pf : Nat)
       obtain ⟨kw, st1, ⟨_, rfl, rfl⟩, t2, st2, ⟨h2, rfl, rfl⟩, ty1, st3, hty, close, st4, ⟨h5, rfl, rfl⟩, h6⟩ := h
       cases h6
       obtain ⟨hs3, hl3, hm3⟩ := ih _ _ _ hty
-      have l1 := len_of_peekTok hk
-      have l2 := len_of_peekTok h2
-      have l5 := len_of_peekTok h5
+      have l1 := len_of_nextTok hk
+      have l2 := len_of_nextTok h2
+      have l5 := len_of_nextTok h5
       refine ⟨(Suf.adv _).trans (hs3.trans ((Suf.adv _).trans (Suf.adv _))), by omega, ?_⟩
       intro gf hgf
       obtain ⟨g, rfl⟩ : ∃ g, gf = g + 1 := ⟨gf - 1, by omega⟩
@@ -130,9 +130,9 @@ theorem parseType_sound_step (pf : Nat)
       obtain ⟨kw, st1, ⟨_, rfl, rfl⟩, t2, st2, ⟨h2, rfl, rfl⟩, ty1, st3, hty, close, st4, ⟨h5, rfl, rfl⟩, h6⟩ := h
       cases h6
       obtain ⟨hs3, hl3, hm3⟩ := ih _ _ _ hty
-      have l1 := len_of_peekTok hk
-      have l2 := len_of_peekTok h2
-      have l5 := len_of_peekTok h5
+      have l1 := len_of_nextTok hk
+      have l2 := len_of_nextTok h2
+      have l5 := len_of_nextTok h5
       refine ⟨(Suf.adv _).trans (hs3.trans ((Suf.adv _).trans (Suf.adv _))), by omega, ?_⟩
       intro gf hgf
       obtain ⟨g, rfl⟩ : ∃ g, gf = g + 1 := ⟨gf - 1, by omega⟩
@@ -144,19 +144,19 @@ theorem parseType_sound_step (pf : Nat)
       obtain ⟨kw, st1, ⟨_, rfl, rfl⟩, h2⟩ := h
       obtain ⟨r, st2, hopt, h3⟩ := h2
       rw [parseOptional_eq_ok] at hopt
-      have l1 := len_of_peekTok hk
+      have l1 := len_of_nextTok hk
       rcases hopt with ⟨hlt, a, ha, rfl⟩ | ⟨hne, _, rfl, rfl⟩
       · simp only [Except.bind_eq_ok, Prod.exists, parseToken_eq_ok] at ha
         obtain ⟨ok, st3, hok, err, st4, herr, close, st5, ⟨h5, rfl, rfl⟩, h6⟩ := ha
         cases h6
         cases h3
-        have l2 := len_of_peekTok hlt
-        have l5 := len_of_peekTok h5
+        have l2 := len_of_nextTok hlt
+        have l5 := len_of_nextTok h5
         obtain ⟨hs3, hl3, hm3⟩ := typeOrHole_sound pf ih _ _ _ hok
         rw [parseOptional_eq_ok] at herr
         rcases herr with ⟨hc, e, he, rfl⟩ | ⟨hnc, _, rfl, rfl⟩
         · obtain ⟨hs4, hl4, hm4⟩ := typeOrHole_sound pf ih _ _ _ he
-          have l3 := len_of_peekTok hc
+          have l3 := len_of_nextTok hc
           refine ⟨(Suf.adv _).trans (hs4.trans ((Suf.adv _).trans (hs3.trans ((Suf.adv _).trans (Suf.adv _))))), by omega, ?_⟩
           intro gf hgf
           obtain ⟨g, rfl⟩ : ∃ g, gf = g + 1 := ⟨gf - 1, by omega⟩
@@ -180,10 +180,10 @@ theorem parseType_sound_step (pf : Nat)
       simp only [Except.bind_eq_ok, Prod.exists, parseToken_eq_ok, parseIdent_eq_ok] at h
       obtain ⟨kw, st1, ⟨_, rfl, rfl⟩, t2, st2, ⟨h2, rfl, rfl⟩, id, st3, ⟨h3, rfl, rfl⟩, close, st4, ⟨h5, rfl, rfl⟩, h6⟩ := h
       cases h6
-      have l1 := len_of_peekTok hk
-      have l2 := len_of_peekTok h2
-      have l3 := len_of_peekTok h3
-      have l5 := len_of_peekTok h5
+      have l1 := len_of_nextTok hk
+      have l2 := len_of_nextTok h2
+      have l3 := len_of_nextTok h3
+      have l5 := len_of_nextTok h5
       refine ⟨(Suf.adv _).trans ((Suf.adv _).trans ((Suf.adv _).trans (Suf.adv _))), by omega, ?_⟩
       intro gf hgf
       obtain ⟨g, rfl⟩ : ∃ g, gf = g + 1 := ⟨gf - 1, by omega⟩
@@ -193,14 +193,14 @@ theorem parseType_sound_step (pf : Nat)
       simp only [Except.bind_eq_ok, Prod.exists, parseIdent_eq_ok] at h
       obtain ⟨id, st1, ⟨_, rfl, rfl⟩, h2⟩ := h
       cases h2
-      have l1 := len_of_peekTok hk
+      have l1 := len_of_nextTok hk
       refine ⟨Suf.adv _, by omega, ?_⟩
       intro gf hgf
       obtain ⟨g, rfl⟩ : ∃ g, gf = g + 1 := ⟨gf - 1, by omega⟩
       simp [gType, hk, mem_gId, and_assoc, eraseTy, erase_identAt]
     · cases h
   · rename_i x hn
-    have := peekTok_of_next_none hn
+    have := nextTok_of_next_none hn
     simp [this] at h
 
 theorem parseType_sound (pf : Nat) (st : PState) (ty : Ty) (st' : PState)
@@ -217,8 +217,8 @@ theorem parseNamedType_sound (pf : Nat) (st : PState) (n : NamedType) (st' : PSt
   obtain ⟨id, st1, ⟨h1, rfl, rfl⟩, t2, st2, ⟨h2, rfl, rfl⟩, ty, st3, hty, h4⟩ := h
   cases h4
   obtain ⟨hs3, hl3, hm3⟩ := parseType_sound _ _ _ _ hty
-  have l1 := len_of_peekTok h1
-  have l2 := len_of_peekTok h2
+  have l1 := len_of_nextTok h1
+  have l2 := len_of_nextTok h2
   refine ⟨hs3.trans ((Suf.adv _).trans (Suf.adv _)), by omega, ?_⟩
   intro gf hgf
   simp [gNamedType, h1, h2, mem_gId, and_assoc, eraseNamedType, erase_identAt]
@@ -237,7 +237,7 @@ theorem parseResultList_sound (pf : Nat) (st : PState) (r : ResultList) (st' : P
 
 /-- the parameter list `'(' params? ')'` shared by function types and constructors -/
 theorem paramList_sound (pf : Nat) (st : PState) (ps : List NamedType) (st3 : PState)
-    (h1 : peekTok st = some .OpenParen)
+    (h1 : nextTok st = some .OpenParen)
     (hd : parseDelimited .CloseParen true [.Ident] (parseNamedType pf) pf (adv st) = .ok (ps, st3)) :
     Suf (adv st3) st ∧ (adv st3).toks.length + 2 ≤ st.toks.length ∧
     ∀ gf, st.toks.length ≤ (adv st3).toks.length + gf →
@@ -245,8 +245,8 @@ theorem paramList_sound (pf : Nat) (st : PState) (ps : List NamedType) (st3 : PS
   obtain ⟨hs3, hp3, hl3⟩ := parseDelimited_struct _ _ _ _
     (fun st x st1 hx => ⟨(parseNamedType_sound pf st x st1 hx).1, (parseNamedType_sound pf st x st1 hx).2.1⟩)
     _ _ _ _ hd
-  have l1 := len_of_peekTok h1
-  have l3 := len_of_peekTok hp3
+  have l1 := len_of_nextTok h1
+  have l3 := len_of_nextTok hp3
   have hl3' := hs3.len
   refine ⟨(Suf.adv _).trans (hs3.trans (Suf.adv _)), by omega, ?_⟩
   intro gf hgf
@@ -268,11 +268,11 @@ theorem parseFuncType_sound (pf : Nat) (st : PState) (f : FuncType) (st' : PStat
     res, st5, hres, h6⟩ := h
   cases h6
   obtain ⟨hs3, hl3, hm3⟩ := paramList_sound pf _ _ _ h2 hd
-  have l1 := len_of_peekTok h1
+  have l1 := len_of_nextTok h1
   rw [parseOptional_eq_ok] at hres
   rcases hres with ⟨ha, r, hr, rfl⟩ | ⟨hna, _, rfl, rfl⟩
   · obtain ⟨ty, rfl, hs5, hl5, hm5⟩ := parseResultList_sound _ _ _ _ hr
-    have l4 := len_of_peekTok ha
+    have l4 := len_of_nextTok ha
     refine ⟨hs5.trans ((Suf.adv _).trans (hs3.trans (Suf.adv _))), by omega, ?_⟩
     intro gf hgf
     simp [gFuncType, h1, eraseFuncType, eraseResultList]
@@ -300,7 +300,7 @@ theorem parseFuncTypeRef_sound (pf : Nat) (st : PState) (f : FuncTypeRef) (st' :
     simp only [Except.bind_eq_ok, Prod.exists, parseIdent_eq_ok] at h
     obtain ⟨id, st1, ⟨_, rfl, rfl⟩, h2⟩ := h
     cases h2
-    have l1 := len_of_peekTok hk
+    have l1 := len_of_nextTok hk
     refine ⟨Suf.adv _, by omega, ?_⟩
     intro gf hgf
     simp [gFuncTypeRef, hk, mem_gId, and_assoc, eraseFuncTypeRef, erase_identAt]
@@ -318,8 +318,8 @@ theorem parseResourceMethod_sound (pf : Nat) (st : PState) (m : ResourceMethod) 
       t6, st6, ⟨h6, rfl, rfl⟩, h7⟩, h8⟩ := h
     cases h7; cases h8
     obtain ⟨hs3, hl3, hm3⟩ := paramList_sound pf _ _ _ h2 hd
-    have l1 := len_of_peekTok hk
-    have l6 := len_of_peekTok h6
+    have l1 := len_of_nextTok hk
+    have l6 := len_of_nextTok h6
     refine ⟨(Suf.adv _).trans (hs3.trans (Suf.adv _)), by omega, ?_⟩
     intro gf hgf
     simp [gResourceItem, hk, eraseResourceMethod]
@@ -330,15 +330,15 @@ theorem parseResourceMethod_sound (pf : Nat) (st : PState) (m : ResourceMethod) 
     obtain ⟨m, st1, ⟨id, st2, ⟨_, rfl, rfl⟩, t2, st3, ⟨h2, rfl, rfl⟩, ft, st4, hft, t5, st5, ⟨h5, rfl, rfl⟩,
       h7⟩, h8⟩ := h
     cases h7; cases h8
-    have l1 := len_of_peekTok hk
-    have l2 := len_of_peekTok h2
-    have l5 := len_of_peekTok h5
+    have l1 := len_of_nextTok hk
+    have l2 := len_of_nextTok h2
+    have l5 := len_of_nextTok h5
     by_cases hst : peekIs (adv (adv st)) .StaticKeyword = true
     · simp only [hst, if_true] at hft
       rw [peekIs_iff] at hst
       change parseFuncType pf (adv (adv (adv st))) = _ at hft
       obtain ⟨hs4, hl4, hm4⟩ := parseFuncType_sound _ _ _ _ hft
-      have l3 := len_of_peekTok hst
+      have l3 := len_of_nextTok hst
       refine ⟨(Suf.adv _).trans (hs4.trans ((Suf.adv _).trans ((Suf.adv _).trans (Suf.adv _)))), by omega, ?_⟩
       intro gf hgf
       simp [gResourceItem, hk, h2, mem_gId, and_assoc, eraseResourceMethod, erase_identAt]
@@ -360,12 +360,12 @@ theorem parseResourceDecl_sound (pf : Nat) (st : PState) (d : ResourceDecl) (st'
     (h : parseResourceDecl pf st = .ok (d, st')) : Sound eraseResourceDecl gResourceDecl 0 st d st' := by
   simp only [parseResourceDecl, Except.bind_eq_ok, Prod.exists, parseToken_eq_ok, parseIdent_eq_ok] at h
   obtain ⟨t1, st1, ⟨h1, rfl, rfl⟩, id, st2, ⟨h2, rfl, rfl⟩, h3⟩ := h
-  have l1 := len_of_peekTok h1
-  have l2 := len_of_peekTok h2
+  have l1 := len_of_nextTok h1
+  have l2 := len_of_nextTok h2
   split at h3
   · rename_i hk
     cases h3
-    have l3 := len_of_peekTok hk
+    have l3 := len_of_nextTok hk
     refine ⟨(Suf.adv _).trans ((Suf.adv _).trans (Suf.adv _)), by show (adv (adv (adv st))).toks.length < _; omega, ?_⟩
     intro gf hgf
     show (_, abs (adv (adv (adv st)))) ∈ _
@@ -374,8 +374,8 @@ theorem parseResourceDecl_sound (pf : Nat) (st : PState) (d : ResourceDecl) (st'
     simp only [Except.bind_eq_ok, Prod.exists, parseToken_eq_ok] at h3
     obtain ⟨t4, st4, ⟨_, rfl, rfl⟩, ms, st5, hd, t6, st6, ⟨h6, rfl, rfl⟩, h7⟩ := h3
     cases h7
-    have l3 := len_of_peekTok hk
-    have l6 := len_of_peekTok h6
+    have l3 := len_of_nextTok hk
+    have l6 := len_of_nextTok h6
     obtain ⟨hs5, hp5, hl5⟩ := parseDelimited_struct _ _ _ _
       (fun st x st1 hx => ⟨(parseResourceMethod_sound pf st x st1 hx).1,
         (parseResourceMethod_sound pf st x st1 hx).2.1⟩) _ _ _ _ hd
@@ -398,7 +398,7 @@ theorem list1_sound {α β : Type} (stop : Token) (peeks : List Token) (item : P
     (hitem : ∀ st x st1, item st = .ok (x, st1) → Sound er p 0 st x st1)
     (pf : Nat) (st : PState) (xs : List α) (st3 : PState)
     (hd : parseDelimited stop true peeks item pf st = .ok (xs, st3)) (hne : ¬ xs.isEmpty = true) :
-    Suf st3 st ∧ st3.toks.length < st.toks.length ∧ peekTok st3 = some stop ∧
+    Suf st3 st ∧ st3.toks.length < st.toks.length ∧ nextTok st3 = some stop ∧
     ∀ gf, st.toks.length ≤ st3.toks.length + gf → (xs.map er, abs st3) ∈ list1 (p gf) gf (abs st) := by
   obtain ⟨hs3, hp3, hl3⟩ := parseDelimited_struct _ _ _ _
     (fun st x st1 hx => ⟨(hitem st x st1 hx).1, (hitem st x st1 hx).2.1⟩) _ _ _ _ hd
@@ -431,15 +431,15 @@ theorem parseVariantCase_sound (pf : Nat) (st : PState) (c : VariantCase) (st' :
   simp only [parseVariantCase, Except.bind_eq_ok, Prod.exists, parseIdent_eq_ok] at h
   obtain ⟨id, st1, ⟨h1, rfl, rfl⟩, o, st2, ho, h3⟩ := h
   cases h3
-  have l1 := len_of_peekTok h1
+  have l1 := len_of_nextTok h1
   rw [parseOptional_eq_ok] at ho
   rcases ho with ⟨hp, ty, hty, rfl⟩ | ⟨hnp, _, rfl, rfl⟩
   · simp only [Except.bind_eq_ok, Prod.exists, parseToken_eq_ok] at hty
     obtain ⟨ty', st3, hty, t4, st4, ⟨h4, rfl, rfl⟩, h5⟩ := hty
     cases h5
     obtain ⟨hs3, hl3, hm3⟩ := parseType_sound _ _ _ _ hty
-    have l2 := len_of_peekTok hp
-    have l4 := len_of_peekTok h4
+    have l2 := len_of_nextTok hp
+    have l4 := len_of_nextTok h4
     refine ⟨(Suf.adv _).trans (hs3.trans ((Suf.adv _).trans (Suf.adv _))), by omega, ?_⟩
     intro gf hgf
     simp [gVariantCase, h1, hp, mem_gId, and_assoc, eraseVariantCase, erase_identAt]
@@ -460,10 +460,10 @@ theorem parseVariantDecl_sound (pf : Nat) (st : PState) (d : VariantDecl) (st' :
     cases h6
     obtain ⟨hs4, hl4, _, hm4⟩ := list1_sound .CloseBrace [.Ident] (parseVariantCase pf) eraseVariantCase
       gVariantCase (parseVariantCase_sound pf) pf _ _ _ hd hne
-    have l1 := len_of_peekTok h1
-    have l2 := len_of_peekTok h2
-    have l3 := len_of_peekTok h3
-    have l5 := len_of_peekTok h5
+    have l1 := len_of_nextTok h1
+    have l2 := len_of_nextTok h2
+    have l3 := len_of_nextTok h3
+    have l5 := len_of_nextTok h5
     refine ⟨(Suf.adv _).trans (hs4.trans ((Suf.adv _).trans ((Suf.adv _).trans (Suf.adv _)))), by omega, ?_⟩
     intro gf hgf
     rw [gVariantDecl_eq]
@@ -501,10 +501,10 @@ theorem parseRecordDecl_sound (pf : Nat) (st : PState) (d : RecordDecl) (st' : P
     cases h6
     obtain ⟨hs4, hl4, _, hm4⟩ := list1_sound .CloseBrace [.Ident] (parseField pf) eraseField
       gField (parseField_sound pf) pf _ _ _ hd hne
-    have l1 := len_of_peekTok h1
-    have l2 := len_of_peekTok h2
-    have l3 := len_of_peekTok h3
-    have l5 := len_of_peekTok h5
+    have l1 := len_of_nextTok h1
+    have l2 := len_of_nextTok h2
+    have l3 := len_of_nextTok h3
+    have l5 := len_of_nextTok h5
     refine ⟨(Suf.adv _).trans (hs4.trans ((Suf.adv _).trans ((Suf.adv _).trans (Suf.adv _)))), by omega, ?_⟩
     intro gf hgf
     rw [gRecordDecl_eq]
@@ -524,7 +524,7 @@ theorem parseFlag_sound (st : PState) (f : Flag) (st' : PState)
   simp only [parseFlag, Except.bind_eq_ok, Prod.exists, parseIdent_eq_ok] at h
   obtain ⟨id, st1, ⟨h1, rfl, rfl⟩, h2⟩ := h
   cases h2
-  have l1 := len_of_peekTok h1
+  have l1 := len_of_nextTok h1
   refine ⟨Suf.adv _, by omega, ?_⟩
   intro gf hgf
   simp [gFlag, h1, mem_gId, and_assoc, eraseFlag, erase_identAt]
@@ -540,10 +540,10 @@ theorem parseFlagsDecl_sound (pf : Nat) (st : PState) (d : FlagsDecl) (st' : PSt
     cases h6
     obtain ⟨hs4, hl4, _, hm4⟩ := list1_sound .CloseBrace [.Ident] parseFlag eraseFlag
       (fun _ => gFlag) parseFlag_sound pf _ _ _ hd hne
-    have l1 := len_of_peekTok h1
-    have l2 := len_of_peekTok h2
-    have l3 := len_of_peekTok h3
-    have l5 := len_of_peekTok h5
+    have l1 := len_of_nextTok h1
+    have l2 := len_of_nextTok h2
+    have l3 := len_of_nextTok h3
+    have l5 := len_of_nextTok h5
     refine ⟨(Suf.adv _).trans (hs4.trans ((Suf.adv _).trans ((Suf.adv _).trans (Suf.adv _)))), by omega, ?_⟩
     intro gf hgf
     rw [gFlagsDecl_eq]
@@ -563,7 +563,7 @@ theorem parseEnumCase_sound (st : PState) (c : EnumCase) (st' : PState)
   simp only [parseEnumCase, Except.bind_eq_ok, Prod.exists, parseIdent_eq_ok] at h
   obtain ⟨id, st1, ⟨h1, rfl, rfl⟩, h2⟩ := h
   cases h2
-  have l1 := len_of_peekTok h1
+  have l1 := len_of_nextTok h1
   refine ⟨Suf.adv _, by omega, ?_⟩
   intro gf hgf
   simp [gEnumCase, h1, mem_gId, and_assoc, eraseEnumCase, erase_identAt]
@@ -579,10 +579,10 @@ theorem parseEnumDecl_sound (pf : Nat) (st : PState) (d : EnumDecl) (st' : PStat
     cases h6
     obtain ⟨hs4, hl4, _, hm4⟩ := list1_sound .CloseBrace [.Ident] parseEnumCase eraseEnumCase
       (fun _ => gEnumCase) parseEnumCase_sound pf _ _ _ hd hne
-    have l1 := len_of_peekTok h1
-    have l2 := len_of_peekTok h2
-    have l3 := len_of_peekTok h3
-    have l5 := len_of_peekTok h5
+    have l1 := len_of_nextTok h1
+    have l2 := len_of_nextTok h2
+    have l3 := len_of_nextTok h3
+    have l5 := len_of_nextTok h5
     refine ⟨(Suf.adv _).trans (hs4.trans ((Suf.adv _).trans ((Suf.adv _).trans (Suf.adv _)))), by omega, ?_⟩
     intro gf hgf
     rw [gEnumDecl_eq]
@@ -633,10 +633,10 @@ theorem parseTypeAlias_sound (pf : Nat) (st : PState) (a : TypeAlias) (st' : PSt
     t5, st5, ⟨h5, rfl, rfl⟩, h6⟩ := h
   cases h6
   obtain ⟨hs4, hl4, hm4⟩ := parseTypeAliasKind_sound _ _ _ _ hk
-  have l1 := len_of_peekTok h1
-  have l2 := len_of_peekTok h2
-  have l3 := len_of_peekTok h3
-  have l5 := len_of_peekTok h5
+  have l1 := len_of_nextTok h1
+  have l2 := len_of_nextTok h2
+  have l3 := len_of_nextTok h3
+  have l5 := len_of_nextTok h5
   refine ⟨(Suf.adv _).trans (hs4.trans ((Suf.adv _).trans ((Suf.adv _).trans (Suf.adv _)))), by omega, ?_⟩
   intro gf hgf
   rw [gTypeAlias_eq]
